@@ -50,6 +50,23 @@ Proof.
   apply vreorder_go_bound. intros x Hx. apply index_from_bound in Hx. rewrite map_length in Hx. exact Hx.
 Qed.
 
+Lemma vchoose_valid o n : List.length (vchoose o n) = List.length n /\ Forall (idx_ok (List.length o)) (vchoose o n).
+Proof.
+  unfold vchoose. destruct guide as [g|]; [|split; [apply vreorder_indices_length | apply vreorder_indices_bound]].
+  destruct (g o n) as [idx|]; [|split; [apply vreorder_indices_length | apply vreorder_indices_bound]].
+  destruct (Nat.eqb (List.length idx) (List.length n) && forallb (idx_in_range (List.length o)) idx) eqn:E;
+    [|split; [apply vreorder_indices_length | apply vreorder_indices_bound]].
+  apply andb_prop in E as [E1 E2]. apply Nat.eqb_eq in E1. split; [exact E1|].
+  apply Forall_forall. intros [j|] Hin; cbn; [|exact I].
+  rewrite forallb_forall in E2. specialize (E2 _ Hin). cbn in E2. apply Nat.ltb_lt in E2. exact E2.
+Qed.
+
+Lemma vchoose_length o n : List.length (vchoose o n) = List.length n.
+Proof. apply vchoose_valid. Qed.
+
+Lemma vchoose_bound o n : Forall (idx_ok (List.length o)) (vchoose o n).
+Proof. apply vchoose_valid. Qed.
+
 (** The old element the i-th new element is compared with. *)
 Definition voldI (o : list val) (j : option nat) : val :=
   match j with Some j' => nth j' o VNull | None => VNull end.
